@@ -30,13 +30,16 @@ type rbox struct {
 	hAuto  bool
 	hv     float64 // used content height when !hAuto
 
-	through    bool    // top and bottom margins are adjoining (§8.3.1): the box is collapsed through
-	y, bh      float64 // border box top and height (y is undefined when through)
-	ch         float64 // content height
-	hasLine    bool
-	lineY      float64
-	observable bool    // non-zero border-box area or own text
-	rawBottom  float64 // bottom border edge before the min-height floor is applied
+	through bool // top and bottom margins are adjoining (§8.3.1): the box is collapsed through
+	// emptyByReading: collapsed through only under the second reading of adjoining(); under
+	// the letter it is a box whose first child is collapsed through
+	emptyByReading bool
+	y, bh          float64 // border box top and height (y is undefined when through)
+	ch             float64 // content height
+	hasLine        bool
+	lineY          float64
+	observable     bool    // non-zero border-box area or own text
+	rawBottom      float64 // bottom border edge before the min-height floor is applied
 
 	// sets of adjoining margins that lie immediately before the top edge / the line / the
 	// bottom edge of this box (feature tags only)
@@ -264,6 +267,7 @@ func (d *refDoc) adjoining(emptyReading bool) {
 			d.ambiguous = true
 			if emptyReading {
 				d.union(top(r), bottom(r))
+				r.emptyByReading = true
 				changed = true
 				break
 			}
